@@ -381,8 +381,16 @@ pub fn check_case(c: &Case) -> Check {
     }
 }
 
+const NAME_POOLS: [[&str; 6]; 4] = [
+    ["a", "b", "c", "d", "e", "f"],
+    // names that are prefixes of one another / look like generated or coloured vertices
+    ["v1", "v10", "v11", "v2", "v1_", "v"],
+    ["a", "ab", "a_c0", "a_c1", "a1", "a_"],
+    ["x", "x0", "x00", "X", "x_0", "x1"],
+];
+
 fn gen_edges(t: &mut Tape, maxv: usize, loops: bool) -> Vec<(String, String)> {
-    let names = ["a", "b", "c", "d", "e", "f"];
+    let names = NAME_POOLS[t.choose(NAME_POOLS.len())];
     let nv = 1 + t.choose(maxv);
     let ne = t.choose(nv * nv + 2);
     let mut es = Vec::new();
@@ -466,7 +474,7 @@ fn record(c: &Case, st: &mut Stats) {
 
 pub fn run(ctx: &mut Ctx) -> Result<(), Violation> {
     ctx.rule = "cases = requests to the random_graph_gen binary built from the working tree. Generate: V in 0..12, E in 0..max+3 (feasible, exactly-all, infeasible), -u, --complete, --dot, -o file; each request is run three times (fresh samples) and only invariants that must hold for every sample are judged: exactly E distinct edges, endpoints distinct and within v0..v(V-1), with -u no pair in both orientations, --complete = all pairs, an infeasible request exits non-zero and writes no edge, a panic is never an acceptable refusal. \
-                --convert: small edge lists (<= 6 vertices, duplicates, reversed duplicates) x -u x --dot against the documented merge. --colors k (1..4) on loop-free graphs of <= 5 vertices: brute-force k-colourability of the input <=> the output edge list has a clique with one vertex <v>_c<k> per input vertex (brute-force search). \
+                --convert: small edge lists (<= 6 vertices, duplicates, reversed duplicates) x -u x --dot against the documented merge. --colors k (1..4) on loop-free graphs of <= 5 vertices (name pools incl. names that are prefixes of one another such as v1/v10, a/ab/a_c0) and on generated graphs of up to 11 vertices piped back through --convert: brute-force k-colourability of the input <=> the output edge list has a clique with one vertex <v>_c<k> per input vertex (brute-force search). \
                 Exhaustive stage: every (V, E) with V <= 5 and E <= max+2 x -u x --dot. Non-trivial = generate request with V >= 3 and >= 2 edges, convert/colour input with >= 2 edges; distinct by request."
         .to_string();
     ctx.assume("the distribution of the samples is not judged, only per-sample invariants");
@@ -503,6 +511,41 @@ pub fn run(ctx: &mut Ctx) -> Result<(), Violation> {
         check_case(c)
     });
     ctx.stage("all-small-requests", true, r)?;
+
+    // pipeline: a generated graph (up to 11 vertices, so that v1 / v10 coexist) fed back through --convert --colors
+    let pipes: Vec<(usize, usize, usize)> = {
+        let mut v = Vec::new();
+        let reps = ctx.tier.pick(2usize, 20usize);
+        for rep in 0..reps {
+            for vertices in [3usize, 6, 11] {
+                for colors in 1..=3usize {
+                    v.push((vertices, colors, rep));
+                }
+            }
+        }
+        v
+    };
+    let r = par_jobs(ctx, &pipes, |(vertices, colors, rep), st| {
+        let cj = json!({"kind": "pipeline", "vertices": vertices, "colors": colors});
+        let ne = (vertices + rep) % (vertices * (vertices - 1) / 2 + 1);
+        let out = run_tool(&[vertices.to_string(), ne.to_string(), "-u".to_string()]);
+        if !out.ok() {
+            return Err(Violation::new(format!("generation failed: {}", out.describe()), cj));
+        }
+        let input = parse_output(&out.out(), false, true).map_err(|e| Violation::new(e, cj.clone()))?;
+        if input.is_empty() {
+            return Ok(());
+        }
+        let c = Case::Colors {
+            input,
+            colors: *colors,
+            undirected: true,
+        };
+        record(&c, st);
+        st.class("colors:pipeline-from-generated-graph");
+        check_case(&c)
+    });
+    ctx.stage("generated-graph-to-colouring-pipeline", false, r)?;
 
     let cases = ctx.tier.pick(500, 12_000);
     let r = par_random(ctx, "random-requests", cases, 120, |tape, st| {
